@@ -84,9 +84,6 @@ fn known_types(c: &mut Case, ty: &mut LType) {
 /// below a union.
 fn rewrite_known(ty: &mut LType) -> bool {
     use LType::*;
-    if std::env::var("VP_PROBE").is_ok() {
-        return false;
-    }
     let mut hit = false;
     match ty {
         List(f, _) | FixedList(f, _) => hit |= rewrite_known(&mut f.ty),
@@ -117,6 +114,23 @@ fn rewrite_known(ty: &mut LType) -> bool {
     }
     hit
 }
+/// known finding: a union encoded under `descending` (directly, or below Struct / FixedSizeList which hand their
+/// options down unchanged) only negates its type-id byte; the child bytes come from a converter built ascending and are
+/// copied as they are, so values of one type still ascend. (Below List / Map / RunEndEncoded / Union the child
+/// converter is ascending and the parent inverts the bytes, which is consistent.)
+fn union_under_descending(ty: &LType, desc: bool) -> bool {
+    use LType::*;
+    match ty {
+        Union { fields, .. } => desc || fields.iter().any(|f| union_under_descending(&f.1.ty, false)),
+        Struct(fs) => fs.iter().any(|f| union_under_descending(&f.ty, desc)),
+        FixedList(f, _) => union_under_descending(&f.ty, desc),
+        List(f, _) => union_under_descending(&f.ty, false),
+        Map { key, val, .. } => union_under_descending(&key.ty, false) || union_under_descending(&val.ty, false),
+        Ree { value, .. } => union_under_descending(&value.ty, false),
+        _ => false,
+    }
+}
+
 fn strip_dict(ty: &mut LType) {
     use LType::*;
     match ty {
@@ -148,8 +162,13 @@ fn gen_schema(c: &mut Case, max_fields: usize) -> Schema {
             ty = LType::Utf8(Enc::O32);
         }
         known_types(c, &mut ty);
+        let mut o = sort_opts_of(&mut c.tape);
+        if !c.strict && union_under_descending(&ty, o.descending) {
+            c.exclude("row:union-descending");
+            o.descending = false;
+        }
         fields.push(LField::new(&format!("c{i}"), ty, true));
-        opts.push(sort_opts_of(&mut c.tape));
+        opts.push(o);
     }
     Schema { fields, opts }
 }
@@ -262,9 +281,15 @@ fn sub_rows(c: &mut Case) -> CaseResult {
         }
     }
     c.class(format!("fields:{}", k));
+    run_history(c, &s, &cols, &sizes)
+}
+
+/// realise the batches, run a generated history on one converter, then judge every pair of rows and every decode
+fn run_history(c: &mut Case, s: &Schema, cols: &[Vec<LValue>], sizes: &[usize]) -> CaseResult {
+    let k = s.fields.len();
     let mut batches: Vec<Batch> = vec![];
     let mut start = 0;
-    for n in &sizes {
+    for n in sizes {
         let bc: Vec<Vec<LValue>> = cols.iter().map(|x| x[start..start + n].to_vec()).collect();
         let mut arrays = vec![];
         for x in 0..k {
@@ -274,7 +299,7 @@ fn sub_rows(c: &mut Case) -> CaseResult {
         batches.push(Batch { cols: bc, arrays, n: *n });
         start += n;
     }
-    let conv = new_converter(&s)?;
+    let conv = new_converter(s)?;
     let strong = true;
 
     // ---- history: a list of Rows objects, each with the tuple index of every row
@@ -288,6 +313,10 @@ fn sub_rows(c: &mut Case) -> CaseResult {
         batch_tuples.push(ids);
     }
     let mut objs: Vec<(Rows, Vec<usize>, &'static str)> = vec![];
+    let mut trace: Vec<String> = vec![];
+    // object ids whose row buffer extends behind the last row offset (made by from_binary of a sliced array, or of the
+    // binary form of such rows)
+    let mut tail: Vec<usize> = vec![];
     for (bi, b) in batches.iter().enumerate() {
         match c.tape.below(4) {
             0 if !objs.is_empty() => {
@@ -299,6 +328,7 @@ fn sub_rows(c: &mut Case) -> CaseResult {
                     Err(e) => fail!("append:err", "{}", e),
                 }
                 map.extend(batch_tuples[bi].iter().copied());
+                trace.push(format!("append(obj{}, batch{})", t, bi));
                 c.class("op:append");
             }
             1 => {
@@ -307,6 +337,7 @@ fn sub_rows(c: &mut Case) -> CaseResult {
                     Ok(()) => {}
                     Err(e) => fail!("append:err", "{}", e),
                 }
+                trace.push(format!("obj{} = empty_rows + append(batch{})", objs.len(), bi));
                 objs.push((rows, batch_tuples[bi].clone(), "empty_rows+append"));
                 c.class("op:empty_rows+append");
             }
@@ -315,6 +346,7 @@ fn sub_rows(c: &mut Case) -> CaseResult {
                     Ok(r) => r,
                     Err(e) => fail!("convert_columns:err", "convert_columns failed for {}: {}", s.describe(), e),
                 };
+                trace.push(format!("obj{} = convert_columns(batch{})", objs.len(), bi));
                 objs.push((rows, batch_tuples[bi].clone(), "convert_columns"));
                 c.class("op:convert_columns");
             }
@@ -341,6 +373,7 @@ fn sub_rows(c: &mut Case) -> CaseResult {
                     no_panic("Rows::push", || rows.push(srows.row(i)))?;
                     map.push(smap[i]);
                 }
+                trace.push(format!("obj{} = empty_rows + push of {} rows of obj{}", objs.len(), map.len(), src));
                 objs.push((rows, map, "push"));
                 c.class("op:push");
             }
@@ -355,7 +388,9 @@ fn sub_rows(c: &mut Case) -> CaseResult {
                 for (i, b) in before.iter().enumerate() {
                     ensure!(bin.value(i) == b.as_slice(), "try_into_binary:bytes", "row {} bytes differ in the binary array", i);
                 }
+                let mut sliced = tail.contains(&src);
                 let (bin, map): (BinaryArray, Vec<usize>) = if c.tape.bool() && bin.len() > 0 {
+                    sliced = true;
                     let off = c.tape.below(bin.len());
                     let len = c.tape.below(bin.len() - off + 1);
                     c.class("op:from_binary-sliced");
@@ -365,11 +400,34 @@ fn sub_rows(c: &mut Case) -> CaseResult {
                     (bin, smap.clone())
                 };
                 let keep = bin.clone();
-                let rows = no_panic("from_binary", || conv.from_binary(bin))?;
+                let mut rows = no_panic("from_binary", || conv.from_binary(bin))?;
+                let mut map = map;
                 ensure!(rows.num_rows() == keep.len(), "from_binary:len", "from_binary has {} rows for {}", rows.num_rows(), keep.len());
                 for i in 0..keep.len() {
                     ensure!(rows.row(i).data() == keep.value(i), "from_binary:bytes", "row {} differs after binary round trip", i);
                 }
+                if c.tape.chance(64) {
+                    if sliced && !c.strict {
+                        // known finding: `append` assumes the row buffer ends at the last offset (it zero-fills by
+                        // resizing); rows made by from_binary of a sliced array carry the bytes behind the slice,
+                        // which then show through the zero padding of null encodings
+                        c.exclude("row:append-after-sliced-from_binary");
+                    } else {
+                        // keep appending to rows that came back from their binary form
+                        let bi = c.tape.below(batches.len());
+                        match no_panic("append", || conv.append(&mut rows, &batches[bi].arrays))? {
+                            Ok(()) => {}
+                            Err(e) => fail!("append:err", "{}", e),
+                        }
+                        map.extend(batch_tuples[bi].iter().copied());
+                        trace.push(format!("append(next obj, batch{})", bi));
+                        c.class("op:from_binary+append");
+                    }
+                }
+                if sliced {
+                    tail.push(objs.len());
+                }
+                trace.push(format!("obj{} = from_binary(try_into_binary(obj{}){})", objs.len(), src, if sliced { " sliced" } else { "" }));
                 objs.push((rows, map, "from_binary"));
             }
             _ => {
@@ -382,10 +440,14 @@ fn sub_rows(c: &mut Case) -> CaseResult {
                     Ok(()) => {}
                     Err(e) => fail!("append:err", "{}", e),
                 }
+                trace.push(format!("obj{} = clone of obj{}; clear; append(batch{})", objs.len(), src, bi));
                 objs.push((rows, batch_tuples[bi].clone(), "clear+append"));
                 c.class("op:clear+append");
             }
         }
+    }
+    if let serde_json::Value::Object(m) = &mut c.desc {
+        m.insert("history".into(), json!(trace));
     }
     for (rows, map, src) in &objs {
         ensure!(rows.num_rows() == map.len(), "rows:num_rows", "{} has {} rows, expected {}", src, rows.num_rows(), map.len());
@@ -419,11 +481,6 @@ fn sub_rows(c: &mut Case) -> CaseResult {
     for (o, t) in &owned {
         entries.push(Entry { row: o.row(), tuple: *t, src: "owned" });
     }
-    for (a, ta) in &owned {
-        for (b, tb) in &owned {
-            ensure!(a.cmp(b) == a.row().cmp(&b.row()) && (a == b) == (tuples[*ta] == tuples[*tb]), "ownedrow:cmp", "OwnedRow Ord/Eq differ from Row");
-        }
-    }
     if entries.len() > 60 {
         // keep the pair matrix bounded: a generated subset
         let mut kept = vec![];
@@ -434,7 +491,13 @@ fn sub_rows(c: &mut Case) -> CaseResult {
         }
         entries = kept;
     }
-    check_pairs(c, &s, &tuples, &entries, strong)?;
+    check_pairs(c, s, &tuples, &entries, strong)?;
+    for (a, ta) in &owned {
+        for (b, tb) in &owned {
+            ensure!(a.cmp(b) == a.row().cmp(&b.row()) && a.partial_cmp(b) == Some(a.cmp(b)), "ownedrow:cmp", "OwnedRow Ord differs from Row Ord");
+            ensure!((a == b) == (tuples[*ta] == tuples[*tb]), "ownedrow:eq", "OwnedRow == is {} for values {:?} / {:?}", a == b, tuples[*ta], tuples[*tb]);
+        }
+    }
 
     // three-way with arrow-ord inside each batch (same arrays), where the comparator orders unions like the row format
     // does (no union in the schema)
@@ -486,7 +549,7 @@ fn sub_rows(c: &mut Case) -> CaseResult {
             Err(e) => fail!("convert_rows:err", "convert_rows({}) failed for {}: {}", src, s.describe(), e),
         };
         let want: Vec<Vec<LValue>> = map.iter().map(|t| tuples[*t].clone()).collect();
-        check_decoded(&s, &out, &want, src)?;
+        check_decoded(s, &out, &want, src)?;
     }
     if !entries.is_empty() {
         let cnt = c.tape.below(2 * entries.len() + 1);
@@ -496,7 +559,7 @@ fn sub_rows(c: &mut Case) -> CaseResult {
             Err(e) => fail!("convert_rows:err", "convert_rows(selection) failed for {}: {}", s.describe(), e),
         };
         let want: Vec<Vec<LValue>> = sel.iter().map(|i| tuples[entries[*i].tuple].clone()).collect();
-        check_decoded(&s, &out, &want, "selection")?;
+        check_decoded(s, &out, &want, "selection")?;
         c.class("decode:selection");
     }
     // non-trivial: a non-default option with nulls and duplicates present, or a long common prefix between different rows
@@ -685,6 +748,82 @@ fn sub_support(c: &mut Case) -> CaseResult {
     Ok(())
 }
 
+// ------------------------------------------------------------------------------------------------
+// Reproductions of the findings the generators avoid (fixed schema and values, default history; registered with zero
+// generated cases so that a known-findings entry {sub, tape: ""} re-executes them)
+
+fn repro_with(c: &mut Case, ty: LType, o: SortOptions, col: Vec<LValue>) -> CaseResult {
+    let s = Schema { fields: vec![LField::new("c0", ty, true)], opts: vec![o] };
+    c.describe(json!({"fields": s.describe(), "values": short_vec(&col)}));
+    c.nontrivial();
+    let n = col.len();
+    run_history(c, &s, &[col], &[n])
+}
+
+/// convert_rows of a dense union whose type ids are not 0..n (ids 0 and 2)
+fn repro_union_dense_ids(c: &mut Case) -> CaseResult {
+    let ty = LType::Union { dense: true, fields: vec![(0, LField::new("a", LType::Int { bits: 32, signed: true }, true)), (2, LField::new("b", LType::Utf8(Enc::O32), true))] };
+    let col = vec![LValue::Union(0, Box::new(LValue::Int(1))), LValue::Union(2, Box::new(LValue::Str("x".into()))), LValue::Union(0, Box::new(LValue::Null))];
+    repro_with(c, ty, SortOptions::default(), col)
+}
+
+/// convert_rows of a union with a dictionary child: the child comes back hydrated inside a union that still declares
+/// the dictionary type
+fn repro_union_dictionary_child(c: &mut Case) -> CaseResult {
+    let d = LType::Dict { kbits: 32, ksigned: true, value: Box::new(LType::Utf8(Enc::O32)) };
+    let ty = LType::Union { dense: false, fields: vec![(0, LField::new("a", d, true))] };
+    let col = vec![LValue::Union(0, Box::new(LValue::Str("a".into()))), LValue::Union(0, Box::new(LValue::Str("b".into()))), LValue::Union(0, Box::new(LValue::Str("a".into())))];
+    repro_with(c, ty, SortOptions::default(), col)
+}
+
+/// a union column under `descending`: values of one type still ascend
+fn repro_union_descending(c: &mut Case) -> CaseResult {
+    let ty = LType::Union { dense: false, fields: vec![(0, LField::new("a", LType::Int { bits: 32, signed: true }, true))] };
+    let col = vec![LValue::Union(0, Box::new(LValue::Int(1))), LValue::Union(0, Box::new(LValue::Int(2))), LValue::Union(0, Box::new(LValue::Int(3)))];
+    repro_with(c, ty, SortOptions { descending: true, nulls_first: true }, col)
+}
+
+/// append to rows obtained by from_binary of a sliced binary array: the encoding of a null is expected to be
+/// sentinel + zeros, but the bytes behind the slice are still in the buffer
+fn repro_append_after_sliced_from_binary(c: &mut Case) -> CaseResult {
+    use arrow_array::Int32Array;
+    use std::sync::Arc;
+    let conv = match RowConverter::new(vec![SortField::new(arrow_schema::DataType::Int32)]) {
+        Ok(c) => c,
+        Err(e) => fail!("RowConverter::new:err", "{}", e),
+    };
+    let first: ArrayRef = Arc::new(Int32Array::from(vec![Some(1), Some(-1)]));
+    let nulls: ArrayRef = Arc::new(Int32Array::from(vec![None::<i32>]));
+    let rows = match conv.convert_columns(&[first]) {
+        Ok(r) => r,
+        Err(e) => fail!("convert_columns:err", "{}", e),
+    };
+    let reference = match conv.convert_columns(&[nulls.clone()]) {
+        Ok(r) => r,
+        Err(e) => fail!("convert_columns:err", "{}", e),
+    };
+    let bin = match rows.try_into_binary() {
+        Ok(b) => b,
+        Err(e) => fail!("try_into_binary:err", "{}", e),
+    };
+    let mut back = no_panic("from_binary", || conv.from_binary(bin.slice(0, 1)))?;
+    match no_panic("append", || conv.append(&mut back, &[nulls]))? {
+        Ok(()) => {}
+        Err(e) => fail!("append:err", "{}", e),
+    }
+    c.describe(json!({"history": "convert [1,-1]; try_into_binary; slice(0,1); from_binary; append [null]; compare with convert [null]"}));
+    c.nontrivial();
+    ensure!(back.num_rows() == 2, "rows:num_rows", "{} rows", back.num_rows());
+    ensure!(back.row(1) == reference.row(0), "row:equal-iff-same-values", "a null appended after from_binary(sliced) encodes as {:?}, a null converted directly as {:?}", back.row(1).data(), reference.row(0).data());
+    Ok(())
+}
+
+/// a reproduction fails with its own signature (`repro:<key>`), so that listing it as a known finding can never hide a
+/// generated failure that merely shares the underlying signature
+fn tag(r: CaseResult, key: &str) -> CaseResult {
+    r.map_err(|f| Fail::new(format!("repro:{key}"), format!("[{}] {}", f.sig, f.msg)))
+}
+
 fn main() {
     let nblocks = (BLOCK_LENS.len() * 6 * POSITIONS * 4) as u64;
     Check::new(
@@ -697,10 +836,14 @@ fn main() {
     .assume("decoded columns: dictionaries come back as their value type at every nesting level (documented), run-end arrays as run-end arrays; values compared through accessors")
     .sub(Sub::new("blocks", 0, 0, sub_blocks).enumerate(nblocks, nblocks * 4))
     .sub(
-        Sub::new("rows", 3000, 80000, sub_rows)
+        Sub::new("rows", 150000, 1500000, sub_rows)
             .tape(256, 12000)
             .require(&["family:list", "family:listview", "family:fixedlist", "family:struct", "family:map", "family:union", "family:dictionary", "family:runend", "family:float", "family:view", "family:bytes", "has:dictionary", "fields:1", "fields:4", "op:append", "op:push", "op:from_binary", "op:from_binary-sliced", "op:parse", "op:owned", "op:clear+append", "decode:selection", "pair:common-prefix>=10"]),
     )
-    .sub(Sub::new("support", 600, 10000, sub_support).tape(64, 2000).require(&["supported", "unsupported"]))
+    .sub(Sub::new("repro_union_dense_ids", 0, 0, |c| tag(repro_union_dense_ids(c), "union-dense-ids")))
+    .sub(Sub::new("repro_union_dictionary_child", 0, 0, |c| tag(repro_union_dictionary_child(c), "union-dictionary-child")))
+    .sub(Sub::new("repro_union_descending", 0, 0, |c| tag(repro_union_descending(c), "union-descending")))
+    .sub(Sub::new("repro_append_after_sliced_from_binary", 0, 0, |c| tag(repro_append_after_sliced_from_binary(c), "append-after-sliced-from-binary")))
+    .sub(Sub::new("support", 8000, 80000, sub_support).tape(64, 2000).require(&["supported", "unsupported"]))
     .run()
 }
